@@ -500,7 +500,8 @@ LEVELS["C09"] = "model_checking"
 
 def check_C09(run, replay):
     run.rule = ("model: Stop.tla checked by TLC for every bound sequence over 0..3 of length <=4 x thresholds 0..4 and NaN "
-                "(StopIsPrefix, NeverPastFirstHit, BudgetRespected, ThresholdsNeverShorten, termination under fairness); "
+                "(StopIsPrefix, NeverPastFirstHit, BudgetRespected, ThresholdsNeverShorten, termination under fairness) and "
+                "proved for every budget / bound sequence / threshold by TLAPS (spec/proofs/StopProof.tla: FirstHitOrBudget); "
                 "traces: for U-zoo and seeded games, methods Full / Sampled / External under pinned draws, the five presets, "
                 "budgets {2,5,20(,1,100)}: the unthresholded prefixes t=1..N (bound tokens, strategy digests), then "
                 "solve(m,N,r,k) for r just below / at / just above every total bound (next_down, exact, next_up; 1e-6 apart "
@@ -510,6 +511,18 @@ def check_C09(run, replay):
                        "with several threads thresholds keep a relative distance of 1e-6 from every bound"]
     res = tlc("MC_Stop", timeout=600)
     run.add_tlc(res)
+    # unbounded: the TLAPS proof of the same rule for every budget, bound sequence and threshold
+    from vlib import sh, SPEC
+    import shutil
+    cache = os.path.join(SPEC, "proofs", ".tlacache")
+    shutil.rmtree(cache, ignore_errors=True)
+    rc, out = sh(["timeout", "600", "tlapm", "--threads", "8", "-I", "..", "StopProof.tla"], cwd=os.path.join(SPEC, "proofs"), timeout=700)
+    shutil.rmtree(cache, ignore_errors=True)
+    import re as _re
+    m = _re.search(r"All (\d+) obligations proved", out)
+    if not m:
+        raise ToolError("TLAPS proof of the stop rule (spec/proofs/StopProof.tla) failed:\n" + out[-1500:])
+    run.notes["tlaps_obligations_proved"] = int(m.group(1))
     trace = run.path("stop.ndjson")
     n = 10 if run.tier == "quick" else 150
     args = ["record", "stop", "--seed", run.seed, "--n", n, "--out", trace]
